@@ -13,7 +13,7 @@ def keep(o):
 
 def run(ck):
     engine.check_engine(ck, 'C08', actor.proj(keep_out=keep, keys=('starts',)),
-                        'script starts + requests to dependencies + Ok messages sent', fail_p=0.1, clean_p=0.4)
+                        'script starts + requests to dependencies + Ok messages sent', fail_p=0.1, clean_p=0.4, n_evflow_quick=16)
 
 
 def replay(ck, path):
